@@ -652,6 +652,9 @@ fn op_axissort(ctx: &mut Ctx, op: &str, it: &mut std::str::SplitWhitespace) -> O
 }
 
 pub fn run_op(ctx: &mut Ctx, op: &str) {
+    if ctx.hang_limit_reached() {
+        return;
+    }
     let mut it = op.split_whitespace();
     let r = match it.next() {
         Some("mj") => op_mj(ctx, op, &mut it),
